@@ -75,6 +75,38 @@ func rulesC06(c *Ctx) {
 		}
 	}
 
+	// badger Prune: while traversing a lone root only nodes CREATED in the pruned version are deleted
+	// (nodes inherited from earlier versions are shared with the continuing lineage).
+	if fn := c.needFn(rule, "storage/mkvs/db/badger.(*badgerNodeDB).Prune"); fn != nil {
+		found := false
+		for _, an := range anonFuncs(fn) {
+			del := CallsArg(an, "batch.Delete(nodeKeyFmt)", bWB+".Delete", 1, `global:storage/mkvs/db/badger\.nodeKeyFmt`)
+			if del.Empty() {
+				continue
+			}
+			found = true
+			c.DominatedByCond(rule, an, "item.Version==pruned-version", `^storage/mkvs/db/badger\.tsToVersion\(github\.com/dgraph-io/badger/v4\.\(\*Item\)\.Version\(.*\)\) == \*?free:version$|^\*?free:version == storage/mkvs/db/badger\.tsToVersion\(`, del, "pruning deletes only nodes created in the pruned version; older nodes are still referenced by retained versions")
+		}
+		c.Check(found, rule, fname(fn)+":visitor-deletes-nodes", c.P.Pos(fn.Pos()), "node deletion found in the prune visitor", "node deletion in the prune visitor not found")
+	}
+	// pathbadger GetNode: for a pending root (seqNo != 0) the pending node set is consulted before
+	// the finalized set (competing candidates of one version share (version,index) keys).
+	if fn := c.needFn(rule, "storage/mkvs/db/pathbadger.(*badgerNodeDB).GetNode"); fn != nil {
+		fin := CallsArg(fn, "tx.Get(finalizedNodeKeyFmt)", bTX+".Get", 1, `global:storage/mkvs/db/pathbadger\.finalizedNodeKeyFmt`)
+		pend := CallsArg(fn, "tx.Get(pendingNodeKeyFmt)", bTX+".Get", 1, `global:storage/mkvs/db/pathbadger\.pendingNodeKeyFmt`)
+		inst := fname(fn) + ":pending-before-finalized"
+		if fin.Empty() || pend.Empty() {
+			c.Fail(rule, inst, c.P.Pos(fn.Pos()), "GetNode no longer consults both the pending and the finalized node sets")
+		} else {
+			cut := NewCut().AddEdges(HeldEdges(fn, `getPendingRootSeqNo\(.*\)#0 == 0$`)...)
+			for _, p := range pend.Ins {
+				cut.AddInstr(p)
+			}
+			hit := Reach(fn, nil, nil, anyOf(fin.Ins), cut)
+			c.Check(hit == nil, rule, inst, c.P.InstrPos(fin.Ins[0]), "finalized set is read only for seqNo==0 or after the pending set was consulted", "for a pending root the finalized node set is read without consulting the pending set first: a competing candidate's nodes would be returned under this root")
+		}
+	}
+
 	// C06.c ABCI pruner: sync before acknowledging retention.
 	if fn := c.needFn("C06.sync", "consensus/cometbft/abci.(*genericPruner).Prune"); fn != nil {
 		prune := CallsTo(fn, "ndb.Prune", "storage/mkvs/db/api.(NodeDB).Prune", "")
